@@ -113,24 +113,29 @@ class InheritableSQLMeta(sqlmeta):
                 cname = col.name
                 if cname == 'childName':
                     continue
+                cnames = [cname]
                 if cname.endswith("ID"):
-                    cname = cname[:-2]
-                setattr(soClass, getterName(cname), eval(
-                    'lambda self: self._parent.%s' % cname))
-                if not col.immutable:
-                    def make_setfunc(cname):
-                        def setfunc(self, val):
-                            if not self.sqlmeta._creating and \
-                               not getattr(self.sqlmeta,
-                                           "row_update_sig_suppress", False):
-                                self.sqlmeta.send(events.RowUpdateSignal, self,
-                                                  {cname: val})
+                    # a foreign key: both <name> and <name>ID live
+                    # in the parent
+                    cnames.insert(0, cname[:-2])
+                for cname in cnames:
+                    setattr(soClass, getterName(cname), eval(
+                        'lambda self: self._parent.%s' % cname))
+                    if not col.immutable:
+                        def make_setfunc(cname):
+                            def setfunc(self, val):
+                                if not self.sqlmeta._creating and \
+                                   not getattr(self.sqlmeta,
+                                               "row_update_sig_suppress",
+                                               False):
+                                    self.sqlmeta.send(events.RowUpdateSignal,
+                                                      self, {cname: val})
 
-                            setattr(self._parent, cname, val)
-                        return setfunc
+                                setattr(self._parent, cname, val)
+                            return setfunc
 
-                    setfunc = make_setfunc(cname)
-                    setattr(soClass, setterName(cname), setfunc)
+                        setfunc = make_setfunc(cname)
+                        setattr(soClass, setterName(cname), setfunc)
             if childUpdate:
                 makeProperties(soClass)
                 return
